@@ -38,6 +38,25 @@ func runMatrix(t *testing.T, prop, mode string, protos []string, kinds, listKind
 			for m := range run.Members {
 				cells = append(cells, faultCase{Run: run, F: faultSpec{Deviator: m, Kind: "wrong-secret", Field: fieldRef{"Xi", -1}, MsgType: "(key data)"}})
 			}
+			if run.Proto == "ecdsa-signing" { // consistent self-built MtA responses (deviator d towards victim v)
+				for d := 0; d < 3; d++ {
+					v := (d + 1) % 3
+					for _, k := range []string{"mta-bob:consistent", "mta-bob:huge-multiplier", "mta-bob:huge-mask", "mta-bobwc:consistent", "mta-bobwc:huge-multiplier", "mta-bobwc:huge-mask"} {
+						cells = append(cells, faultCase{Run: run, F: faultSpec{Deviator: d, MsgType: pES + "SignRound2Message", Field: fieldRef{"c1", -1}, Kind: k, Recip: v}})
+					}
+				}
+			}
+			if run.Proto == "ecdsa-keygen" || run.Proto == "eddsa-keygen" { // the deviator deals a polynomial of the harness' choosing
+				mt := pEK
+				if run.Proto == "eddsa-keygen" {
+					mt = pDK
+				}
+				for d := 0; d < 3; d++ {
+					for _, k := range []string{"redeal:consistent", "redeal:degree+1", "redeal:degree-1"} {
+						cells = append(cells, faultCase{Run: run, F: faultSpec{Deviator: d, MsgType: mt + "KGRound2Message1", Field: fieldRef{"share", -1}, Kind: k, Recip: -1}})
+					}
+				}
+			}
 			if run.Proto == "ecdsa-keygen" || run.Proto == "ecdsa-resharing" {
 				for _, bits := range []int{1024, 512} {
 					for m := 0; m < 2; m++ {
@@ -101,7 +120,9 @@ func sampleCells(cells []faultCase, sample, shard, shards int) []faultCase {
 			switch {
 			case strings.HasPrefix(c.F.Kind, "commit:"):
 				k += "/commit"
-			case c.F.Kind == "sum-zero" || c.F.Kind == "mirror" || c.F.Kind == "wrong-secret" || strings.HasPrefix(c.F.Kind, "weak-params") || strings.HasPrefix(c.F.Kind, "bits-"):
+			case strings.HasPrefix(c.F.Kind, "mta-") || strings.HasPrefix(c.F.Kind, "redeal:"):
+				k += "/" + c.F.Kind
+			case c.F.Kind == "neg" || c.F.Kind == "sum-zero" || c.F.Kind == "mirror" || c.F.Kind == "wrong-secret" || strings.HasPrefix(c.F.Kind, "weak-params") || strings.HasPrefix(c.F.Kind, "bits-"):
 				k += "/" + c.F.Kind
 			}
 			if _, ok := strata[k]; !ok {
